@@ -36,6 +36,8 @@ PANICKING = [
     (r"^std::cmp::Ord::clamp$", "clamp-min-gt-max"),
     (r"^core::(f32|f64)::<impl (f32|f64)>::clamp$", "clamp-min-gt-max"),
     (r"^core::num::<impl (u|i)(8|16|32|64|128|size)>::(next_multiple_of|div_ceil)$", "int-round"),
+    # arithmetic that overflows *silently*: "without arithmetic overflow" is about the value, not about the panic
+    (r"^core::num::<impl (u|i)(8|16|32|64|128|size)>::(wrapping|overflowing)_(add|sub|mul)$", "silent-wrap"),
     (r"^core::slice::<impl \[T\]>::(rchunks|rchunks_exact|chunks_mut|chunks_exact_mut|rchunks_mut|array_chunks|array_windows|swap_with_slice|select_nth_unstable_by|select_nth_unstable_by_key|as_chunks|as_rchunks)$", "slice-panic"),
     (r"^std::iter::Iterator::(array_chunks|map_windows)$", "step_by-zero"),
     (r"^core::str::<impl str>::(repeat)$", "capacity"),
@@ -698,6 +700,13 @@ def discharge(site, fx, policy):
         kind = site.op.split(":")[0]
         p = n["fn"]["path"]
         args = n["args"]
+        if kind == "silent-wrap" and len(args) == 2:
+            # judged like the plain operator on the same operands: discharged iff it cannot wrap
+            op_ = {"add": "Add", "sub": "Sub", "mul": "Mul"}[p.rsplit("_", 1)[-1]]
+            pseudo = Site("arith", op_, {"k": "Binary", "op": op_, "l": args[0], "r": args[1], "ty": n.get("ty"), "sp": n.get("sp")}, site.parents, site.body)
+            pseudo.ty = site.ty or n.get("ty")
+            r_ = discharge(pseudo, fx, policy)
+            return ("(wrapping form) " + r_) if r_ else None
         if kind == "slice-panic" and p.endswith(("::windows", "::chunks", "::chunks_exact", "::rchunks", "::rchunks_exact")) and len(args) == 2:
             sz = int_lit(args[1])
             if sz is not None and sz > 0:
